@@ -295,6 +295,17 @@ let () =
            | FFin (s, m, e) -> "fin" ^ sg s ^ ":" ^ pos m ^ ":" ^ str_of_z e) in
          print_string ("= ok " ^ d ^ " " ^ hex_of_bytes back ^ "\n")
        | _, _ -> print_string "= none\n")
+    | "TB" :: kind :: nfill :: rest ->
+      (* TB prioritized 0 leaf...   |   TB balanced <k> fill_1..fill_k leaf... *)
+      let h b = (match orc PSha256 [b] with OOk [x] -> x | _ -> failwith "sha256 oracle") in
+      let k = int_of_string nfill in
+      let bs = List.map bytes_of_hex rest in
+      let rec split n l = if n = 0 then ([], l) else (match l with x :: t -> let (a, b) = split (n - 1) t in (x :: a, b) | [] -> ([], [])) in
+      let (fills, leaves) = split k bs in
+      let r = if kind = "prioritized" then tb_prioritized h leaves else tb_balanced h fills leaves in
+      (match r with
+       | Some (lk, us) -> print_string ("= ok " ^ hex_of_bytes lk ^ " " ^ String.concat "," (List.map hex_of_bytes us) ^ "\n")
+       | None -> print_string "= none\n")
     | ["MT"; packed; path] ->
       let h b = (match orc PSha256 [b] with OOk [x] -> x | _ -> failwith "sha256 oracle") in
       let p = List.filter_map (fun c -> match c with 'L' -> Some L | 'R' -> Some R | _ -> None) (List.of_seq (String.to_seq path)) in
